@@ -63,6 +63,16 @@ def handleRw : List String → String
     match parseHex h with
     | some s => wfReport s
     | none => "bad-op"
+  | ["same", h1, h2] =>    -- do two byte strings have the same tokens / the same significant items?
+    match parseHex h1, parseHex h2 with
+    | some a, some b =>
+      match lex a, lex b with
+      | some ia, some ib =>
+        if itemsOK ia && flatten ia == a && itemsOK ib && flatten ib == b then
+          s!"tok={b2s (tokensOf ia == tokensOf ib)} sig={b2s (significant ia == significant ib)}"
+        else "noparse"
+      | _, _ => "noparse"
+    | _, _ => "bad-op"
   | ["items", h] =>       -- the model's item-level algorithm, for model-vs-spec smoke runs
     match parseHex h with
     | some s => match lex s with
